@@ -256,7 +256,7 @@ pub fn main(args: &Args) -> Report {
         rep.out = out;
         return rep;
     }
-    let n = if args.thorough() { 6000 } else { 1200 };
+    let n = if args.thorough() { 30_000 } else { 1200 };
     let deadline = Instant::now() + Duration::from_secs(args.budget_s(100, 900));
     let seed = args.seed;
     let (out, _) = par_cases(n, threads(), Some(deadline), |k| {
